@@ -4,6 +4,9 @@ so the file stays right after a rebase). 'known' entries and comments are kept a
 import json, os, re, subprocess
 ROOT = os.path.dirname(os.path.dirname(os.path.abspath(__file__)))
 RULES = [
+    (r'iter\(callable, sentinel\) stays exhausted', 'C05'),
+    (r'is_integer\(\) is False', 'C15'),
+    (r'a sign is not a hex digit', 'C06'),
     (r'package level variables are raised as a new object|among a Go module.s globals is copied', 'C08'),
     (r'bytes \+= makes a new object', 'C13'),
     (r'unexpected Go type|non-string raise TypeError|not pairs raises ValueError', 'C10'),
